@@ -70,9 +70,7 @@ pub fn file_text(f: &SrcFile) -> String {
     s
 }
 
-/// depth-first expansion: Ok(marker sequence) or Err(reason)
-pub fn expand(files: &HashMap<String, SrcFile>, std_names: &HashSet<String>, root: &str) -> Result<Vec<u8>, String> {
-    fn go(
+fn go(
         files: &HashMap<String, SrcFile>,
         std_names: &HashSet<String>,
         name: &str,
@@ -124,9 +122,22 @@ pub fn expand(files: &HashMap<String, SrcFile>, std_names: &HashSet<String>, roo
         }
         stack.pop();
         Ok(())
-    }
+}
+
+/// depth-first expansion: Ok(marker sequence) or Err(reason)
+pub fn expand(files: &HashMap<String, SrcFile>, std_names: &HashSet<String>, root: &str) -> Result<Vec<u8>, String> {
+    expand_many(files, std_names, &[root])
+}
+
+/// several root files given on the command line: expanded one after the other; the set of #once files and the
+/// library count are shared, the inclusion stack is per root
+pub fn expand_many(files: &HashMap<String, SrcFile>, std_names: &HashSet<String>, roots: &[&str]) -> Result<Vec<u8>, String> {
     let mut out = Vec::new();
     let mut budget = 400;
-    go(files, std_names, root, &mut vec![], &mut HashSet::new(), &mut out, &mut budget, &mut 0)?;
+    let mut once = HashSet::new();
+    let mut std_count = 0;
+    for root in roots {
+        go(files, std_names, root, &mut vec![], &mut once, &mut out, &mut budget, &mut std_count)?;
+    }
     Ok(out)
 }
